@@ -66,7 +66,7 @@ func shutdownScenario(c *sup.Ctx, r *rng.R, race bool) {
 func init() {
 	sup.Register(&sup.Check{
 		Prop: "C20", Level: "exploration",
-		Rule:        "child worker processes run shutdown scenarios: {writers, feed start-up and delivery, non-stale and updateAfter view queries, documents expiring in 1-2 s, Touch-introduced expiry} in flight (in a third of the scenarios after a bucket of the same name and URL was deleted and while its leftover handle is closed) while {Close of every handle, Close of one of several, CloseAndDelete, DropDataStore} fires after a PRNG delay or at the n-th hit of a hook point (close.mid, event.prepost, feed.registered, view.update, txn.postcommit, cas.between, expiry.fire); every API call runs under recover() (a panic in the caller's goroutine is a witness), a panic in a background goroutine kills the worker (the supervisor records stderr and the scenario), calls that do not return within 20 s are reported with the rosmar functions blocked on locks, an unrelated bucket and (where the store survives) a fresh handle must keep working, the worker waits past every armed expiry deadline, and after the store is shut down the goroutine profile must hold no dcpFeed.run / runExpiry / updateView goroutine; also under the race detector; design-document activity (PutDDoc / GetDDocs / DeleteDDoc through the handles being closed); after CloseAndDelete through one of two handles a live feed through the survivor must be refused; feed starts include a multi-collection feed one of whose parts cannot start; cell = (shutdown call, activities, hook point, bucket type, handles)",
+		Rule:        "child worker processes run shutdown scenarios: {writers, feed start-up and delivery, non-stale and updateAfter view queries, documents expiring in 1-2 s, Touch-introduced expiry} in flight (in a third of the scenarios after a bucket of the same name and URL was deleted and while its leftover handle is closed) while {Close of every handle, Close of one of several, CloseAndDelete, DropDataStore} fires after a PRNG delay or at the n-th hit of a hook point (close.mid, event.prepost, feed.registered, view.update, txn.postcommit, cas.between, expiry.fire); every API call runs under recover() (a panic in the caller's goroutine is a witness), a panic in a background goroutine kills the worker (the supervisor records stderr and the scenario), calls that do not return within 20 s are reported with the rosmar functions blocked on locks, an unrelated bucket and (where the store survives) a fresh handle must keep working, the worker waits past every armed expiry deadline, and after the store is shut down the goroutine profile must hold no dcpFeed.run / runExpiry / updateView goroutine; also under the race detector; design-document activity (PutDDoc / GetDDocs / DeleteDDoc through the handles being closed); after CloseAndDelete through one of two handles a live feed through the survivor must be refused; feed starts include a multi-collection feed one of whose parts cannot start; shutdown kind close+delete (last open handle closed while the bucket is deleted through a handle closed before); cell = (shutdown call, activities, hook point, bucket type, handles)",
 		Assumptions: []string{"'never deadlocks' is decided as 'no call exceeded 20 s with goroutines waiting on rosmar locks'; shorter stalls are not reported", "schedules are sampled; hook points place the shutdown inside the named windows"},
 		Parts: []sup.Part{
 			{Name: "shutdown-scenarios", Timeout: 120 * time.Second, Count: func(t string) int { return tierN(t, 520, 7000) }, Run: func(c *sup.Ctx) {
